@@ -445,6 +445,40 @@ def again(route: int, v: int, lo: int, hi: int, lo2: int, hi2: int, same: bool, 
     check('C01.iff', acc == (m == 0), dict(info, ptype='List', acc=acc, mut=m))
 
 
+def nodefault(ptype: int, lo: int, hi: int, inc_lo: bool, inc_hi: bool) -> None:
+    """A declaration that gives no default: the type's own default must satisfy the declared constraints, else it is rejected."""
+    assume(lo <= hi)
+    inc_lo, inc_hi = pickbool(inc_lo), pickbool(inc_hi)
+    ptype = pick(ptype, 0, 3)
+    if ptype == 1:
+        lo, hi = pick(lo, -3, 3), pick(hi, -3, 3)     # Number's type default is the float 0.0: int bounds are realised (no int/float SMT mixing)
+    info = {'ptype': ['Integer', 'Number', 'List', 'Range'][ptype], 'route': 5, 'no_default': True}
+    if ptype in (0, 1):
+        ok = _inb(0, True, lo, inc_lo, True, hi, inc_hi)
+    elif ptype == 2:
+        assume(lo >= 0)
+        ok = lo <= 0
+    else:
+        ok = True          # the default of Range is None
+    try:
+        if ptype == 0:
+            param.Integer(bounds=(lo, hi), inclusive_bounds=(inc_lo, inc_hi))
+        elif ptype == 1:
+            param.Number(bounds=(lo, hi), inclusive_bounds=(inc_lo, inc_hi))
+        elif ptype == 2:
+            param.List(bounds=(lo, hi))
+        else:
+            param.Range(bounds=(lo, hi))
+        acc, exc = True, None
+    except Exception as e:      # noqa
+        acc, exc = False, type(e).__name__
+    check('C01.iff', acc == ok, dict(info, acc=acc, ok=ok, exc=exc))
+    check('C01.exc', exc in (None, 'ValueError', 'TypeError'), dict(info, exc=exc))
+
+
+nodefault.ranges = lambda consts: dict(ptype=(0, 3), lo=(-3, 3), hi=(-3, 3))
+
+
 def nested(how: int, w: int, lo: int, hi: int) -> None:
     """An assignment made from inside a watcher callback - while a plain set, a param.update, a param.trigger or a batch flush is
     dispatching - is validated like any other: accepted iff it satisfies the constraints."""
@@ -517,6 +551,8 @@ def shards(tier):
             for kind in range(5):
                 out.append(dict(name='%s_r%d_k%d' % (MISC[ptype], route, kind), module='harness.c01', fn='misc',
                                 consts=dict(ptype=ptype, route=route, kind=kind), budget_s=B))
+    for ptype in range(4):
+        out.append(dict(name='nodefault_%d' % ptype, module='harness.c01', fn='nodefault', consts=dict(ptype=ptype), budget_s=B))
     for how in range(4):
         out.append(dict(name='nested_%d' % how, module='harness.c01', fn='nested', consts=dict(how=how), budget_s=B))
     for route in (0, 1):
